@@ -16,7 +16,9 @@
 EXTENDS Integers, Sequences, SequencesExt, FiniteSets, TLC, Json, IOUtils
 
 CONSTANT NChunks
-Recs == ndJsonDeserialize(IOEnv.TRACE)
+\* parsed once at start-up into a TLC register (TLC re-evaluates a definition that reads a file on every reference)
+ASSUME TLCSet(7, ndJsonDeserialize(IOEnv.TRACE))
+Recs == TLCGet(7)
 
 \* little-endian u32 as a number when below 2^31, else -1 ("huge")
 U32(bs) == IF bs[4] >= 128 THEN -1 ELSE bs[1] + 256 * bs[2] + 65536 * bs[3] + 16777216 * bs[4]
